@@ -21,10 +21,12 @@ def main():
     ap.add_argument("--filter", default=".")
     ap.add_argument("--retry-inconclusive", action="store_true")
     ap.add_argument("--redo", action="store_true")
+    ap.add_argument("--retry-reason", default=None, help="retry inconclusive harnesses whose reason matches this regex")
     a = ap.parse_args()
     known = json.load(open(OUT)) if os.path.exists(OUT) else {}
     hs = [h for h in registry.all_harnesses(include_unclosed=True) if h.module == "gen_packets" and re.search(a.filter, h.name)]
-    todo = [h for h in hs if a.redo or h.name not in known or (a.retry_inconclusive and known[h.name]["status"] == "inconclusive")]
+    todo = [h for h in hs if a.redo or h.name not in known or (a.retry_inconclusive and known[h.name]["status"] == "inconclusive")
+            or (a.retry_reason and known[h.name]["status"] == "inconclusive" and re.search(a.retry_reason, known[h.name]["reason"]))]
     print("%d generated harnesses, %d to run" % (len(hs), len(todo)), flush=True)
     work = os.path.join(rc.WORK_ROOT, "sweep-%d" % os.getpid())
     os.makedirs(os.path.join(work, "logs"))
